@@ -166,6 +166,15 @@ def body(ctx: Ctx, p: dict) -> None:
     same = (got == d) | (np.isnan(got) & np.isnan(d))
     if not same[inv].all():
         ctx.violation("C10/invalid-pixel-disparity-changed", f"{method}")
+    if allowed_mask_change:
+        # the same step once more on its own output ('filter' + 'filter.1'): bit 11 is a flag, not a counter
+        twice = ds.copy(deep=True)
+        pfilter.AbstractFilter(cfg=dict(cfg), image_shape=(ny, nx), step=1).filter_disparity(twice)
+        g2 = twice["validity_mask"].data.astype(int)
+        if ((g2 ^ mask.astype(int)) & ~allowed_mask_change).any() or ((g2 & gmask) != gmask).any():
+            r, c = np.argwhere(((g2 ^ mask.astype(int)) & ~allowed_mask_change) | ((g2 & gmask) ^ gmask))[0]
+            ctx.violation("C10/validity-mask-changed", f"{method} applied twice: mask {int(mask[r, c])}->{int(gmask[r, c])}->"
+                                                       f"{int(g2[r, c])} at {(int(r), int(c))}")
     masked = np.where(inv, np.nan, d).astype(np.float32)
     changed = False
     has_inv_in_window = False
